@@ -116,3 +116,143 @@ Theorem c15_per_page_ok_single : forall pages, ~ MultiPage pages ->
 Proof. exact per_page_ok_single. Qed.
 Check c15_per_page_ok_single : forall pages, ~ MultiPage pages -> assign_per_page pages = do_partition_paths pages.
 Print Assumptions c15_per_page_ok_single.
+
+(** ---- stretch (theories/C15/Stretch.v) ---- *)
+From OxVerif Require Import C15.Stretch.
+
+(** the model's decimal printer is injective on its whole exact range (fuel 40: below 10^40;
+    a usize is below 2^64) ... *)
+Theorem c15_dec_inj : forall a b, a < dec_limit -> b < dec_limit -> dec a = dec b -> a = b.
+Proof. exact dec_inj. Qed.
+Check c15_dec_inj : forall a b, a < 10 ^ 40 -> b < 10 ^ 40 -> dec a = dec b -> a = b.
+Print Assumptions c15_dec_inj.
+
+(** ... the bound is necessary for [dec] itself (beyond its fuel it drops leading digits) ... *)
+Theorem c15_dec_not_injective_beyond_limit : exists a b, a <> b /\ dec a = dec b.
+Proof. exact dec_not_injective_beyond_limit. Qed.
+Check c15_dec_not_injective_beyond_limit : exists a b, a <> b /\ dec a = dec b.
+Print Assumptions c15_dec_not_injective_beyond_limit.
+
+(** ... and the same digit loop with fuel taken from the number is [dec] on that range and
+    injective on ALL of N, no bound *)
+Theorem c15_dec_full_is_dec : forall n, n < dec_limit -> dec_full n = dec n.
+Proof. exact dec_full_is_dec. Qed.
+Check c15_dec_full_is_dec : forall n, n < 10 ^ 40 -> dec_full n = dec n.
+Print Assumptions c15_dec_full_is_dec.
+
+Theorem c15_dec_full_inj : forall a b, dec_full a = dec_full b -> a = b.
+Proof. exact dec_full_inj. Qed.
+Check c15_dec_full_inj : forall a b, dec_full a = dec_full b -> a = b.
+Print Assumptions c15_dec_full_inj.
+
+(** equal ids have equal indices (the index is printed in clear after the first colon) *)
+Theorem c15_chunk_id_index_inj : forall h dh i j t1 t2,
+  (dh = None -> ~ In 58 (h t1) /\ ~ In 58 (h t2)) ->
+  i < dec_limit -> j < dec_limit -> chunk_id h dh i t1 = chunk_id h dh j t2 -> i = j.
+Proof. exact chunk_id_index_inj. Qed.
+Check c15_chunk_id_index_inj : forall h dh i j t1 t2,
+  (dh = None -> ~ In 58 (h t1) /\ ~ In 58 (h t2)) ->
+  i < dec_limit -> j < dec_limit -> chunk_id h dh i t1 = chunk_id h dh j t2 -> i = j.
+Print Assumptions c15_chunk_id_index_inj.
+
+(** the ids of the chunks of one document are pairwise distinct — for every hash function,
+    every document; with content prefixes the only hypothesis is that the prefixes of THESE
+    texts contain no colon (16 hex digits in the code); with a document hash none at all *)
+Theorem c15_ids_pairwise_distinct : forall h dh cs,
+  (dh = None -> forall c, In c cs -> ~ In 58 (h (c_full_text c))) ->
+  N.of_nat (length cs) <= dec_limit ->
+  NoDup (map o_id (build h dh cs)).
+Proof. exact build_ids_nodup. Qed.
+Check c15_ids_pairwise_distinct : forall h dh cs,
+  (dh = None -> forall c, In c cs -> ~ In 58 (h (c_full_text c))) ->
+  N.of_nat (length cs) <= 10 ^ 40 ->
+  NoDup (map o_id (build h dh cs)).
+Print Assumptions c15_ids_pairwise_distinct.
+
+Theorem c15_ids_pairwise_distinct_doc_hash : forall h d cs,
+  N.of_nat (length cs) <= dec_limit -> NoDup (map o_id (build h (Some d) cs)).
+Proof. exact build_ids_nodup_doc_hash. Qed.
+Check c15_ids_pairwise_distinct_doc_hash : forall h d cs,
+  N.of_nat (length cs) <= 10 ^ 40 -> NoDup (map o_id (build h (Some d) cs)).
+Print Assumptions c15_ids_pairwise_distinct_doc_hash.
+
+Theorem c15_ids_from_nodup : forall h dh cs i,
+  (dh = None -> forall c, In c cs -> ~ In 58 (h (c_full_text c))) ->
+  i + N.of_nat (length cs) <= dec_limit -> NoDup (ids_from h dh i cs).
+Proof. exact ids_from_nodup. Qed.
+Check c15_ids_from_nodup : forall h dh cs i,
+  (dh = None -> forall c, In c cs -> ~ In 58 (h (c_full_text c))) ->
+  i + N.of_nat (length cs) <= dec_limit -> NoDup (ids_from h dh i cs).
+Print Assumptions c15_ids_from_nodup.
+
+(** the executable predicate used on the implementation's ids holds of the model *)
+Theorem c15_ids_nodupb : forall h dh cs,
+  (dh = None -> forall c, In c cs -> ~ In 58 (h (c_full_text c))) ->
+  N.of_nat (length cs) <= dec_limit -> nodupb (map o_id (build h dh cs)) = true.
+Proof. exact build_ids_nodupb. Qed.
+Check c15_ids_nodupb : forall h dh cs,
+  (dh = None -> forall c, In c cs -> ~ In 58 (h (c_full_text c))) ->
+  N.of_nat (length cs) <= dec_limit -> nodupb (map o_id (build h dh cs)) = true.
+Print Assumptions c15_ids_nodupb.
+
+(** the breadcrumb read leaf-to-root ("latest titles with strictly decreasing rank") is the
+    governing-headings breadcrumb, for every history of headings *)
+Theorem c15_chain_back_is_gov : forall ts, chain_back None (rev ts) = gov ts.
+Proof. exact chain_back_is_gov. Qed.
+Check c15_chain_back_is_gov : forall ts, chain_back None (rev ts) = gov ts.
+Print Assumptions c15_chain_back_is_gov.
+
+Theorem c15_chain_back_filter_gov : forall ts b,
+  chain_back b (rev ts) = filter (fun t => match b with None => true | Some b => fst t <? b end) (gov ts).
+Proof. exact chain_back_filter_gov. Qed.
+Check c15_chain_back_filter_gov : forall ts b,
+  chain_back b (rev ts) = filter (fun t => match b with None => true | Some b => fst t <? b end) (gov ts).
+Print Assumptions c15_chain_back_filter_gov.
+
+Theorem c15_heading_path_is_chain_back : forall es i, (i < length es)%nat ->
+  nth_error (assign es) i = Some (map snd (chain_back None (rev (titles_upto (lev_of es) es i)))).
+Proof. exact heading_path_is_chain_back. Qed.
+Check c15_heading_path_is_chain_back : forall es i, (i < length es)%nat ->
+  nth_error (assign es) i = Some (map snd (chain_back None (rev (titles_upto (lev_of es) es i)))).
+Print Assumptions c15_heading_path_is_chain_back.
+
+(** the heading-size buckets: strictly descending and pairwise more than 5 % (of the larger)
+    apart; each is a title size; every valid title size lies within 5 % of a bucket >= it *)
+Theorem c15_buckets_char : forall es,
+  StronglySorted (fun a b => b < a /\ a < 20 * (a - b)) (buckets es)
+  /\ (forall b, In b (buckets es) -> In b (title_sizes es))
+  /\ (forall s, In s (title_sizes es) -> exists b, In b (buckets es) /\ s <= b /\ 20 * (b - s) <= b).
+Proof. exact buckets_char. Qed.
+Check c15_buckets_char : forall es,
+  StronglySorted (fun a b => b < a /\ a < 20 * (a - b)) (buckets es)
+  /\ (forall b, In b (buckets es) -> In b (title_sizes es))
+  /\ (forall s, In s (title_sizes es) -> exists b, In b (buckets es) /\ s <= b /\ 20 * (b - s) <= b).
+Print Assumptions c15_buckets_char.
+
+Theorem c15_title_sizes_spec : forall es s,
+  In s (title_sizes es) <-> exists e, In e es /\ is_title e = true /\ fsize e = Some s /\ 0 < s.
+Proof. exact title_sizes_spec. Qed.
+Check c15_title_sizes_spec : forall es s,
+  In s (title_sizes es) <-> exists e, In e es /\ is_title e = true /\ fsize e = Some s /\ 0 < s.
+Print Assumptions c15_title_sizes_spec.
+
+(** and these three properties determine the list: a characterisation *)
+Theorem c15_buckets_characterised : forall es bs,
+  (StronglySorted (fun a b => b < a /\ a < 20 * (a - b)) bs
+   /\ (forall b, In b bs -> In b (title_sizes es))
+   /\ (forall s, In s (title_sizes es) -> exists b, In b bs /\ s <= b /\ 20 * (b - s) <= b))
+  <-> bs = buckets es.
+Proof. exact buckets_characterised. Qed.
+Check c15_buckets_characterised : forall es bs,
+  (StronglySorted (fun a b => b < a /\ a < 20 * (a - b)) bs
+   /\ (forall b, In b bs -> In b (title_sizes es))
+   /\ (forall s, In s (title_sizes es) -> exists b, In b bs /\ s <= b /\ 20 * (b - s) <= b))
+  <-> bs = buckets es.
+Print Assumptions c15_buckets_characterised.
+
+Theorem c15_title_size_has_rank : forall es s, In s (title_sizes es) ->
+  exists l, find_bucket 0 (buckets es) s = Some l.
+Proof. exact title_size_has_rank. Qed.
+Check c15_title_size_has_rank : forall es s, In s (title_sizes es) ->
+  exists l, find_bucket 0 (buckets es) s = Some l.
+Print Assumptions c15_title_size_has_rank.
